@@ -317,60 +317,59 @@ Permuted(s, p) == [i \in 1..Len(s) |-> s[p[i]]]
 (* order of the conditioning points is irrelevant *)
 PermutationInvariantCond ==
   Ok => \A p \in Perms(Len(cfg.pos)) :
-     LET c2 == [cfg EXCEPT !.pos = Permuted(cfg.pos, p), !.val = Permuted(cfg.val, p),
-                           !.err.pat = IF cfg.err.mode = "list" THEN Permuted(cfg.err.pat, p) ELSE <<>>]
-         o2 == Solve(c2)
-     IN o2.field = out.field /\ o2.var = out.var /\ o2.gmean = out.gmean /\ o2.meanfield = out.meanfield
+     With(Solve([cfg EXCEPT !.pos = Permuted(cfg.pos, p), !.val = Permuted(cfg.val, p),
+                            !.err.pat = IF cfg.err.mode = "list" THEN Permuted(cfg.err.pat, p) ELSE <<>>]),
+          LAMBDA o2 : o2.field = out.field /\ o2.var = out.var /\ o2.gmean = out.gmean
+                      /\ o2.meanfield = out.meanfield)
 
 (* order of the targets is irrelevant; so is any chunking of the targets *)
 PermutationInvariantTgt ==
   Ok => \A p \in Perms(Len(cfg.tgt)) :
-     LET o2 == Solve([cfg EXCEPT !.tgt = Permuted(cfg.tgt, p)])
-     IN o2.field = Permuted(out.field, p) /\ o2.var = Permuted(out.var, p)
+     With(Solve([cfg EXCEPT !.tgt = Permuted(cfg.tgt, p)]),
+          LAMBDA o2 : o2.field = Permuted(out.field, p) /\ o2.var = Permuted(out.var, p))
 
+RECURSIVE CatField(_, _), CatVar(_, _)
+CatField(parts, i) == IF i = 0 THEN <<>> ELSE CatField(parts, i - 1) \o parts[i].field
+CatVar(parts, i)   == IF i = 0 THEN <<>> ELSE CatVar(parts, i - 1) \o parts[i].var
 ChunkIndependent ==
   Ok => \A cs \in 1..(Len(cfg.tgt) + 1) :
-     LET ch == Chunks(Len(cfg.tgt), cs)
-         part(i) == Solve([cfg EXCEPT !.tgt = SubSeq(cfg.tgt, ch[i][1] + 1, ch[i][2])])
-         RECURSIVE catF(_), catV(_)
-         catF(i) == IF i = 0 THEN <<>> ELSE catF(i - 1) \o part(i).field
-         catV(i) == IF i = 0 THEN <<>> ELSE catV(i - 1) \o part(i).var
-     IN catF(Len(ch)) = out.field /\ catV(Len(ch)) = out.var
+     With(Chunks(Len(cfg.tgt), cs), LAMBDA ch :
+     With([i \in 1..Len(ch) |-> Solve([cfg EXCEPT !.tgt = SubSeq(cfg.tgt, ch[i][1] + 1, ch[i][2])])],
+          LAMBDA parts : CatField(parts, Len(ch)) = out.field /\ CatVar(parts, Len(ch)) = out.var))
 
 (* the estimate is linear in the (detrended, mean-free) data; the variance does not depend on them *)
 ZeroShift(c) == [c EXCEPT !.mean = <<0, 0>>, !.trend = <<0, 0>>]
 LinearInData ==
   Ok => \A a \in {-1, 2} : \A z2 \in ValSeqs[Len(cfg.pos)] :
-     LET c0 == ZeroShift(cfg)
-         o1 == Solve(c0)
-         o2 == Solve([c0 EXCEPT !.val = z2])
-         o3 == Solve([c0 EXCEPT !.val = [i \in 1..Len(z2) |-> a * cfg.val[i] + z2[i]]])
-     IN /\ \A k \in TIdx : /\ o3.field[k][2] = o1.field[k][2] /\ o2.field[k][2] = o1.field[k][2]
+     With(Solve(ZeroShift(cfg)), LAMBDA o1 :
+     With(Solve([ZeroShift(cfg) EXCEPT !.val = z2]), LAMBDA o2 :
+     With(Solve([ZeroShift(cfg) EXCEPT !.val = [i \in 1..Len(z2) |-> a * cfg.val[i] + z2[i]]]), LAMBDA o3 :
+        /\ \A k \in TIdx : /\ o3.field[k][2] = o1.field[k][2] /\ o2.field[k][2] = o1.field[k][2]
                            /\ o3.field[k][1] = a * o1.field[k][1] + o2.field[k][1]
-        /\ o3.var = out.var /\ o2.var = out.var
+        /\ o3.var = out.var /\ o2.var = out.var)))
 
 (* unbiased variants reproduce constants; with drift rows they reproduce the drift functions *)
 ReproducesConstants ==
   Ok /\ cfg.unb => \A a \in {-2, 1, 3} :
-     LET o2 == Solve([ZeroShift(cfg) EXCEPT !.val = [i \in 1..Len(cfg.pos) |-> a]])
-     IN \A k \in TIdx : o2.field[k][1] = a * o2.field[k][2] /\ o2.meanfield[k][1] = a * o2.meanfield[k][2]
+     With(Solve([ZeroShift(cfg) EXCEPT !.val = [i \in 1..Len(cfg.pos) |-> a]]), LAMBDA o2 :
+        \A k \in TIdx : o2.field[k][1] = a * o2.field[k][2] /\ o2.meanfield[k][1] = a * o2.meanfield[k][2])
 
 ReproducesDrift ==
   Ok /\ Len(FTags(cfg)) > 0 =>
     \A l \in 1..Len(FTags(cfg)) : \A b \in {-1, 2} :
-     LET tag == FTags(cfg)[l]
-         o2 == Solve([ZeroShift(cfg) EXCEPT !.val = [i \in 1..Len(cfg.pos) |-> b * FVal(tag, cfg.pos[i])]])
-     IN \A k \in TIdx : /\ o2.field[k][1] = b * FVal(tag, cfg.tgt[k]) * o2.field[k][2]
-                        /\ o2.meanfield[k][1] = b * FVal(tag, cfg.tgt[k]) * o2.meanfield[k][2]
+     With(FTags(cfg)[l], LAMBDA tag :
+     With(Solve([ZeroShift(cfg) EXCEPT !.val = [i \in 1..Len(cfg.pos) |-> b * FVal(tag, cfg.pos[i])]]), LAMBDA o2 :
+        \A k \in TIdx : /\ o2.field[k][1] = b * FVal(tag, cfg.tgt[k]) * o2.field[k][2]
+                         /\ o2.meanfield[k][1] = b * FVal(tag, cfg.tgt[k]) * o2.meanfield[k][2]))
 
 (* an unbiased estimate does not depend on the given constant mean; without normalizer a trend
    acts like a mean (documented) *)
 MeanIrrelevantWhenUnbiased ==
   Ok /\ cfg.unb => Solve([cfg EXCEPT !.mean = <<0, 0>>]).field = out.field
 TrendActsAsMean ==
-  Ok => LET c2 == [cfg EXCEPT !.mean = <<cfg.mean[1] + cfg.trend[1], cfg.mean[2] + cfg.trend[2]>>,
-                              !.trend = <<0, 0>>]
-        IN Solve(c2).field = out.field /\ Solve(c2).var = out.var
+  Ok => With(Solve([cfg EXCEPT !.mean = <<cfg.mean[1] + cfg.trend[1], cfg.mean[2] + cfg.trend[2]>>,
+                               !.trend = <<0, 0>>]),
+             LAMBDA o2 : o2.field = out.field /\ o2.var = out.var)
 
 (* the merged solution, expanded with equal weights inside each group of coincident points,
    solves the full singular system; among its solutions (they differ by vectors e_i - e_j of
@@ -378,22 +377,18 @@ TrendActsAsMean ==
    solution.  Checked for the weights of every target. *)
 DuplicatesMerge ==
   Ok /\ Merges(cfg) =>
-    LET s   == Sys(cfg)
-        N   == Len(s.P)
-        n   == Len(cfg.pos)
-        F   == FTags(cfg)
-        K   == KMat(cfg, s.P, s.E)
-        cof == Cofactors(K)
-        det == out.det
-        KF  == KMat(cfg, cfg.pos, ErrOf(cfg))
-        g(i) == CHOOSE h \in 1..N : s.P[h] = cfg.pos[i]
-    IN \A k \in TIdx :
-         LET r  == Rhs(cfg, s.P, cfg.tgt[k], FALSE)
-             x  == [j \in 1..(N + Len(F)) |-> SumTo([i \in 1..(N + Len(F)) |-> cof[j][i] * r[i]], N + Len(F))]
-             rf == Rhs(cfg, cfg.pos, cfg.tgt[k], FALSE)
-             xf == [j \in 1..(n + Len(F)) |->
-                      IF j <= n THEN (MM \div s.cnt[g(j)]) * x[g(j)] ELSE MM * x[N + (j - n)]]
-         IN \A i \in 1..(n + Len(F)) :
-              SumTo([j \in 1..(n + Len(F)) |-> KF[i][j] * xf[j]], n + Len(F)) = MM * det * rf[i]
+    With(Sys(cfg), LAMBDA s : With(s.P, LAMBDA P : With(s.E, LAMBDA E :
+    With(KMat(cfg, P, E), LAMBDA K : With(Cofactors(K), LAMBDA cof :
+    With(KMat(cfg, cfg.pos, ErrOf(cfg)), LAMBDA KF :
+      LET N  == Len(P)
+          n  == Len(cfg.pos)
+          m  == Len(FTags(cfg))
+          g(i) == CHOOSE h \in 1..N : P[h] = cfg.pos[i]
+      IN \A k \in TIdx :
+           With(MatVec(cof, Rhs(cfg, P, cfg.tgt[k], FALSE)), LAMBDA x :
+           With(Rhs(cfg, cfg.pos, cfg.tgt[k], FALSE), LAMBDA rf :
+           With([j \in 1..(n + m) |-> IF j <= n THEN (MM \div s.cnt[g(j)]) * x[g(j)] ELSE MM * x[N + (j - n)]],
+                LAMBDA xf :
+                  \A i \in 1..(n + m) : Dot(KF[i], xf, n + m) = MM * out.det * rf[i])))))))))
 
 =============================================================================
